@@ -123,7 +123,10 @@ def judge_text(ctx, text, ast_norm, version, route, witness):
             model = create_pattern_object(text, version=version)
             printed = str(model)
     except Exception as e:
-        ctx.violation(vkey("create-raised:" + type(e).__name__, ast_norm), "create_pattern_object raised %s on a valid pattern: %s" % (type(e).__name__, str(e)[:120]),
+        key = vkey("create-raised:" + type(e).__name__, ast_norm)
+        if isinstance(e, ValueError) and "satisfiable with the same object type" in str(e):
+            key = "cross-type-and-refused"      # recorded finding: the object model refuses AND across object types (the repository's tests assert it)
+        ctx.violation(key, "create_pattern_object raised %s on a valid pattern: %s" % (type(e).__name__, str(e)[:120]),
                       dict(witness, route=route, pattern=text, exception=repr(e)[:300]))
         return None
     return judge_printed(ctx, printed, ast_norm, version, route, dict(witness, pattern=text))
@@ -251,6 +254,11 @@ def build(e, parent_prec=0):
 
 def wl_patterns(ctx, rng, i):
     ast = P.gen_pattern(rng)
+    if i % 40 == 7:
+        # comparisons on different object types joined by AND in one observation: valid text (it can never match), see DESIGN 7.2
+        mk = lambda t: (lambda c: ("cmp", (t, c[1][1])) + tuple(c[2:]))(P.gen_cmp(rng, exists_ok=False))    # noqa: E731
+        ast = ("obs", ("and", [mk("file"), mk("process")]))
+        ctx.count("cross_type_and_patterns")
     text = P.to_text(ast, rng)
     errs = validate_text(text)
     if errs is None or errs:
@@ -300,7 +308,7 @@ def wl_patterns(ctx, rng, i):
         model = None
     except Exception as e:
         ctx.ev()
-        ctx.violation("assembly-raised:" + type(e).__name__, "assembling the pattern from the public model classes raised %s: %s" % (type(e).__name__, str(e)[:120]),
+        ctx.violation("cross-type-and-refused" if isinstance(e, ValueError) and "satisfiable with the same object type" in str(e) else "assembly-raised:" + type(e).__name__, "assembling the pattern from the public model classes raised %s: %s" % (type(e).__name__, str(e)[:120]),
                       dict(w, canonical_text=P.to_text(ast), exception=repr(e)[:300]))
         model = None
     if model is not None:
